@@ -151,6 +151,24 @@ def _concat(e: ast.AST) -> List[ast.AST]:
     return [e]
 
 
+def _copy_groups(scope: ast.AST):
+    """names of ``scope`` that only ever exchange their value by plain copies (``a = b``) or by rewriting themselves
+    (``a = a.replace(..)``) stand for one variable; returns a predicate same(a, b)"""
+    parent: dict = {}
+
+    def find(x):
+        parent.setdefault(x, x)
+        while parent[x] != x:
+            parent[x] = parent[parent[x]]
+            x = parent[x]
+        return x
+
+    for n in ast.walk(scope):
+        if isinstance(n, ast.Assign) and len(n.targets) == 1 and isinstance(n.targets[0], ast.Name) and isinstance(n.value, ast.Name):
+            parent[find(n.targets[0].id)] = find(n.value.id)
+    return lambda a, b: find(a) == find(b)
+
+
 def rule_sel(ctx: Ctx) -> RuleResult:
     res = RuleResult("R-SEL")
     f = ctx.p.function(PR)
@@ -165,8 +183,9 @@ def rule_sel(ctx: Ctx) -> RuleResult:
     tvar, pvar = [norm(x) for x in ol.target.elts]
     if "copy" not in norm(ol.iter) and "list(" not in norm(ol.iter):
         res.violation([PR, "iterates the live dict"], "pattern_replacing assigns into the dictionary it iterates without a copy", f.relpath, ol.lineno)
+    same = _copy_groups(ol)
     repl = [n for n in ast.walk(ol) if isinstance(n, ast.Call) and isinstance(n.func, ast.Attribute) and n.func.attr == "replace"
-            and norm(n.func.value) == pvar]
+            and isinstance(n.func.value, ast.Name) and same(n.func.value.id, pvar)]
     if len(repl) != 1:
         res.violation([PR, "replacement"], "pattern_replacing has not exactly one textual replacement on the template", f.relpath, ol.lineno)
         return res
@@ -184,7 +203,9 @@ def rule_sel(ctx: Ctx) -> RuleResult:
         pair_loops = [n for n in ast.walk(ol) if isinstance(n, ast.For) and isinstance(n.target, ast.Tuple)
                       and [norm(a) for a in r.args] == [norm(x_) for x_ in n.target.elts] and any(x_ is r for x_ in ast.walk(n))]
         if sel_loops and pair_loops:
-            it = norm(pair_loops[0].iter)
+            from ..shape import inline_locals
+
+            it = norm(inline_locals(f, pair_loops[0].iter, pair_loops[0]))
             second = norm(sel_loops[0].target.elts[1]) if isinstance(sel_loops[0].target, ast.Tuple) else None
             if (kp_p in it and m in it) or (second and it == f"{second}.items()"):
                 ok = True
@@ -198,7 +219,7 @@ def rule_sel(ctx: Ctx) -> RuleResult:
                       f.relpath, r.lineno)
     # assignment only to existing keys, one per type
     stores = [n for n in ast.walk(ol) if isinstance(n, ast.Assign) and isinstance(n.targets[0], ast.Subscript) and norm(n.targets[0].value) == tpl_p]
-    if len(stores) == 1 and norm(stores[0].targets[0].slice) == tvar and norm(stores[0].value) == pvar:
+    if len(stores) == 1 and norm(stores[0].targets[0].slice) == tvar and isinstance(stores[0].value, ast.Name) and same(stores[0].value.id, pvar):
         res.ok("R-SEL write-back", f"`{norm(stores[0])}`: only existing types are written, each with its own template")
     else:
         res.violation([PR, "write-back"], "pattern_replacing writes something else than templates[type] = template", f.relpath, ol.lineno)
